@@ -153,22 +153,56 @@ Definition check_step (cfg : config) (torc : cluster -> nat -> tanswer) (sorc : 
   | _, _ => (s, all_bad)
   end.
 
+(* ---------- requests through the proxy chain: the cluster that decided = the cluster dispatched to ---------- *)
+(* were the reviews that decided this request made by cluster d — every review call of it received by d,
+   or, without any review, an answer of d itself in the history? *)
+Definition decided_by {A R} (P : spec_kind A R) (ck : ckk R) (d : cluster) (k : key) (now : Z) (r : R) (calls : list call) : bool :=
+  (forallb (fun cl => String.eqb (fst cl) d) calls
+   && (negb (is_nil calls) || has_source (p_eqb P) (c_hist ck) d k r now))%bool.
+
+Definition xclauses := (clauses * bool)%type.     (* the four clauses above, same_cluster *)
+Definition all_okx : xclauses := (all_ok, true).
+Definition all_badx : xclauses := (all_bad, false).
+Definition and_clx (a b : xclauses) : xclauses := (and_cl (fst a) (fst b), (snd a && snd b)%bool).
+
+Definition is_none {X} (o : option X) : bool := match o with None => true | Some _ => false end.
+
 (* overlapping requests are judged exactly as sequential ones: the request whose review was received
-   first, then the one that ran while it was in flight *)
-Definition check_stepx (cfg : config) torc sorc (s : ck) (o : xop) (x : xout) : ck * clauses :=
+   first, then the one that ran while it was in flight.
+   A chain request: its token authentication and its impersonation review are judged as the plain
+   requests for its host they are, and (5) if it reaches the dispatcher, the cluster it is dispatched
+   to must be the cluster whose reviews (or cached answers) decided both. *)
+Definition check_stepx (cfg : config) torc sorc (s : ck) (o : xop) (x : xout) : ck * xclauses :=
   match o, x with
-  | One a, R1 xa => check_step cfg torc sorc s a xa
+  | One a, R1 xa => let (s', c) := check_step cfg torc sorc s a xa in (s', (c, true))
   | Ovl a b, R2 xa xb =>
       let (s1, c1) := check_step cfg torc sorc s a xa in
-      let (s2, c2) := check_step cfg torc sorc s1 b xb in (s2, and_cl c1 c2)
-  | _, _ => (s, all_bad)
+      let (s2, c2) := check_step cfg torc sorc s1 b xb in (s2, (and_cl c1 c2, true))
+  | Chain h tok imp now, RC None z d => (s, (all_ok, (is_none z && is_none d)%bool))
+  | Chain h tok imp now, RC (Some (OutT r calls)) z d =>
+      let (s1, c1) := check_step cfg torc sorc s (OAuthn (Some h) tok now) (OutT r calls) in
+      let dec_t := match d with Some dc => decided_by (tspec cfg) (c_t s) dc [tok] now r calls | None => true end in
+      match z with
+      | None => (s1, (c1, dec_t))
+      | Some (OutS r2 calls2) =>
+          match t_user r, imp with
+          | Some u, Some target =>
+              let a := imp_attrs u target in
+              let (s2, c2) := check_step cfg torc sorc s1 (OAuthz (Some h) a now) (OutS r2 calls2) in
+              let dec_z := match d with Some dc => decided_by (sspec cfg) (c_s s1) dc (sar_key a) now r2 calls2 | None => true end in
+              (s2, (and_cl c1 c2, (dec_t && dec_z)%bool))
+          | _, _ => (s, all_badx)
+          end
+      | Some _ => (s, all_badx)
+      end
+  | _, _ => (s, all_badx)
   end.
 
-Fixpoint check (cfg : config) torc sorc (s : ck) (tr : list (xop * xout)) : clauses :=
+Fixpoint check (cfg : config) torc sorc (s : ck) (tr : list (xop * xout)) : xclauses :=
   match tr with
-  | [] => all_ok
-  | (o, x) :: rest => let (s', cl) := check_stepx cfg torc sorc s o x in and_cl cl (check cfg torc sorc s' rest)
+  | [] => all_okx
+  | (o, x) :: rest => let (s', cl) := check_stepx cfg torc sorc s o x in and_clx cl (check cfg torc sorc s' rest)
   end.
 
-Definition spec_ok (cfg : config) torc sorc (tr : list (xop * xout)) : clauses :=
+Definition spec_ok (cfg : config) torc sorc (tr : list (xop * xout)) : xclauses :=
   check cfg torc sorc (ck_init cfg) tr.
